@@ -229,7 +229,7 @@ func cmdCheck(args []string) int {
 			// every proof obligation of a function in the property's cone supports the property's own obligations
 			// (invariants and callee preconditions are assumed after being asserted), whatever tag it carries;
 			// safety obligations belong to C17 only
-			supporting := *prop != "C17" && ob.Kind != "safe" && ob.Kind != "cover" && fi.Contract != nil
+			supporting := *prop != "C17" && ob.Kind != "safe" && ob.Kind != "cover" && fi.Contract != nil && !(len(ob.Tags) == 1 && ob.Tags[0] == "C17")
 			if !hasTag(ob.Tags, *prop) && !supporting {
 				continue
 			}
@@ -283,6 +283,21 @@ func cmdCheck(args []string) int {
 			known[f.Obligation] = f
 		}
 	}
+	knownElsewhere := map[string]bool{}
+	for _, f := range findings {
+		if f.Kind == "finding" && f.Property != *prop {
+			knownElsewhere[f.Obligation] = true
+		}
+	}
+	var kept []*solveItem
+	for _, it := range items {
+		// a supporting obligation that is a recorded finding of another property is reported there, not here
+		if knownElsewhere[it.ob.Name] && !hasTag(it.ob.Tags, *prop) {
+			continue
+		}
+		kept = append(kept, it)
+	}
+	items = kept
 	for _, it := range items {
 		_, isKnown := known[it.ob.Name]
 		if (haveExpected && !*update && !expected[it.ob.Name]) || isKnown {
@@ -459,15 +474,11 @@ func writeReplay(dir, prop string, ob *Obligation, p *Prog) string {
 }
 
 func writeEvidence(prop, tier string, seed int, recs []oblRec, nObl, nDis, nViol int, funcs, undecided, known, oos []string, notes map[string]bool, samples []any, solverMs int64, wall float64, tmo int) {
-	level := "proof"
-	expl := ""
-	if nObl != nDis || len(known) > 0 {
+	level := manifestLevel(prop)
+	expl := fmt.Sprintf("%d of %d claimed obligations discharged (SMT solvers and, for frame:/det:/own:/esc:/hyg: obligations, the typed effect analysis); %d known findings open", nDis, nObl, len(known))
+	if level == "proof" && (nObl != nDis || len(known) > 0 || nObl == 0) {
 		level = "other"
-		expl = fmt.Sprintf("%d of %d claimed obligations discharged; %d known findings open (obligations that fail on the real code, listed in known_findings.txt); not counted as proved", nDis, nObl, len(known))
-	}
-	if nObl == 0 {
-		level = "other"
-		expl = "no obligations generated"
+		expl += "; not counted as proved"
 	}
 	var ns []string
 	for n := range notes {
@@ -495,9 +506,7 @@ func writeEvidence(prop, tier string, seed int, recs []oblRec, nObl, nDis, nViol
 		"abstractions_used":        ns,
 		"samples":                  samples,
 	}
-	if expl != "" {
-		cov["explanation"] = expl
-	}
+	cov["explanation"] = expl
 	if len(samples) == 0 {
 		cov["samples"] = []any{map[string]any{"note": "no discharged obligation to sample"}}
 	}
@@ -505,6 +514,31 @@ func writeEvidence(prop, tier string, seed int, recs []oblRec, nObl, nDis, nViol
 	os.MkdirAll(filepath.Join(verifDir, "evidence"), 0755)
 	b, _ := json.MarshalIndent(ev, "", " ")
 	os.WriteFile(filepath.Join(verifDir, "evidence", prop+".json"), b, 0644)
+}
+
+// manifestLevel: the level category claimed for the property in MANIFEST.json (the evidence must carry the same level)
+func manifestLevel(prop string) string {
+	b, err := os.ReadFile(filepath.Join(verifDir, "MANIFEST.json"))
+	if err != nil {
+		return "proof"
+	}
+	var m struct {
+		Checks []struct {
+			PropertyID   string `json:"property_id"`
+			LevelClaimed struct {
+				Category string `json:"category"`
+			} `json:"level_claimed"`
+		} `json:"checks"`
+	}
+	if json.Unmarshal(b, &m) != nil {
+		return "proof"
+	}
+	for _, c := range m.Checks {
+		if c.PropertyID == prop && c.LevelClaimed.Category != "" {
+			return c.LevelClaimed.Category
+		}
+	}
+	return "proof"
 }
 
 func trustedBase(prop string) []string {
